@@ -137,6 +137,40 @@ def run_long(ctx, pt):
     ctx.eq('C04/keccak/long-message', ctx.attempt(lambda: mk(b, r, 256, native)(M)), ('ok', exp))
 
 
+def pts_kb(tier):
+    if tier == 'thorough':
+        ns = list(range(1, 4100))
+    else:
+        ns = sorted({c + d for c in (1000, 1024, 2000, 2048, 2944, 2992, 3000, 3072, 4000, 4096) for d in (-1, 0, 1)})
+    return [(1600, 1088, n) for n in ns] + [(1600, 1027, n) for n in (ns if tier == 'quick' else ns[::7])] + [(200, 40, n) for n in (2999, 3000, 3001)]
+
+
+def run_kb(ctx, pt):
+    """kilobyte-sized messages with a bit length that is not a multiple of 8, on the cheapest widths (every byte count
+    1..4099 in thorough): internal buffering of the absorb loop must not depend on where the partial byte falls"""
+    b, r, n = pt
+    M = expander(n + 1, 23)
+    for k in (3, 7):
+        L = 8 * n + k
+        for native in (False, True):
+            exp = RK.keccak(b, r, M, L, 24, nist=not native)
+            ctx.eq('C04/keccak/%s/kilobyte-message-with-partial-byte' % ('native' if native else 'nist'),
+                   ctx.attempt(lambda: mk(b, r, 24, native)(M, bitlen=L)), ('ok', exp))
+
+
+def pts_longout(tier):
+    return [(1600, 1001), (1600, 1027), (800, 129)] + ([(200, 41), (1600, 1531), (400, 9)] if tier == 'thorough' else [])
+
+
+def run_longout(ctx, pt):
+    """outputs of more than 64 kbit with rates that are not a multiple of 8"""
+    b, r = pt
+    M = b'long output'
+    for d in (65536 + 9, 70001):
+        exp = RK.keccak(b, r, M, 8 * len(M), d, nist=True)
+        ctx.eq('C04/keccak/output-length/beyond-64-kbit', ctx.attempt(lambda: mk(b, r, d, False)(M)), ('ok', exp))
+
+
 def pts_fips(tier):
     pts = [('sha3', n, ln) for n in (224, 256, 384, 512) for ln in range(0, 2 * (1600 - 2 * n) // 8 + 2, 1 if tier == 'thorough' else 3)]
     pts += [('sha3', n, ln) for n in (224, 256, 384, 512) for ln in ((1600 - 2 * n) // 8 + k for k in (-2, -1, 0, 1))]
@@ -270,6 +304,10 @@ def subchecks():
             bound='L in {0,1,5,8,13,r-1,r,r+3}: exact container, +2 trailing bytes, bitlen=0 with empty and non-empty container; both bit orders'),
         Sub('long-messages', pts_long, run_long, engine='P', exhaustive=False, chunk=1,
             bound='messages of 65736 / 65537 bytes (thorough also 70000, 16500) with rates 1027, 1531 (1088, 129), byte and bit lengths'),
+        Sub('kilobyte-bit-lengths', pts_kb, run_kb, engine='P',
+            bound='Keccak[1600] r=1088 and r=1027: byte counts around 1000, 1024, 2000, 2048, 2944, 2992, 3000, 3072, 4000, 4096 (thorough: every byte count 1..4099) with 3 and 7 extra bits, both bit orders; Keccak[200] r=40 at 3 sizes'),
+        Sub('long-outputs', pts_longout, run_longout, engine='P', exhaustive=False, chunk=1,
+            bound='outputs of 65545 and 70001 bits for (b,r) in {(1600,1001),(1600,1027),(800,129)} (thorough + (200,41),(1600,1531),(400,9))'),
         Sub('fips202', pts_fips, run_fips, engine='P',
             bound='SHA3-224/256/384/512 on every byte length 0..2 rate-blocks+1 (quick: every 3rd + the rate boundaries), SHAKE128/256 at 256 bits on every length (quick: every 5th) and 4 output lengths on 6 lengths vs hashlib; module singletons keccak_224..512 on 10 lengths'),
         hsub('duplex', systems, 3, bound='Keccak(b,r) for (25,9),(200,40),(1600,1027),(1600,1088) (+3 in thorough): events duplex(m, bitlen in {0,1,8,r-2}, outlen in {1,r}) two plain sponge calls with a bit length, two sponge calls with a per-call rate, and assignments to the duplexing / outlen attributes; all sequences to depth 3 vs a reference duplex object; state = 25 lanes'),
